@@ -12,6 +12,7 @@ import re
 from itertools import takewhile
 from types import FunctionType, NoneType
 from typing import Any, Callable, Mapping, NamedTuple
+from unicodedata import normalize
 
 from . import fst
 
@@ -2369,7 +2370,7 @@ def _one_info_ImportFrom_module(self: fst.FST, static: onestatic, idx: int | Non
     end_col = col + len(src)
     col = end_col - len((src[4:] if col == self_col and ln == self_ln else src).lstrip('.'))  # may be special case, dot right after 'from', e.g. 'from.something import ...'
 
-    if (lines[ln][col : end_col] or None) != ast.module:
+    if (normalize('NFKC', lines[ln][col : end_col]) or None) != ast.module:  # source may be written un-normalized
         raise NotImplementedError('ImportFrom.module not a contiguous string')
 
     return oneinfo('', loc := fstloc(ln, col, ln, end_col), loc)
